@@ -860,6 +860,8 @@ std::vector<shape_t> make_shapes()
                  opI64(std::numeric_limits<int64_t>::max()), opI32(0), opI32(10),
                  opF64(0.0), opF64(1.0), opF64(2.0), opF64(9.0), opF64(10.0), opF64(11.0), opF64(-0.0),
                  opF64(2.5), opF64(0.5), opF64(10.5), opF64(std::nextafter(1.0, 0.0)), opF64(std::nextafter(10.0, 11.0)),
+                 // non-integral values strictly inside the real interval that truncate onto a bound
+                 opF64(1.5), opF64(std::nextafter(1.0, 2.0)), opF64(9.5), opF64(std::nextafter(10.0, 0.0)),
                  opF64(NaN), opF64(INF), opF64(-INF), opF64(1e300), opF32(3.0F),
                  opPI64(1, 2), opPI32(1, 2), opPF64(1.0, 2.0),
                  opS("5"), opS("1"), opS("10"), opS("0"), opS("11"), opS("-3"), opS("0.5"), opS("1e-1"), opS("5,7"), opS("7;5"),
@@ -925,6 +927,9 @@ std::vector<shape_t> make_shapes()
         for (const auto& o : {opPI64(-1, 5), opPI64(5, 11), opPI64(5, 5), opPI64(7, 3),
                               opPI32(1, 9), opPI32(0, 10), opPI32(4, 4),
                               opPF64(1.0, 9.0), opPF64(0.0, 10.0), opPF64(6.0, 6.0), opPF64(1.5, 9.5),
+                              // non-integral components that truncate onto a bound / onto each other
+                              opPF64(0.5, 9.5), opPF64(2.0, 2.5), opPF64(2.5, 2.75), opPF64(std::nextafter(0.0, 1.0), 5.0),
+                              opPF64(5.0, std::nextafter(10.0, 0.0)),
                               opPF64(NaN, 5.0), opPF64(1.0, INF),
                               opI64(5), opF64(5.0),
                               opS("5,7"), opS("7;5"), opS("5"), opS("0.5"), opS(""), opS("abc"),
